@@ -545,3 +545,24 @@ Proof.
     cbn in Hl; try discriminate; [reflexivity|].
   inversion Hf; subst. cbn [map]. f_equal. apply IH; [congruence|assumption].
 Qed.
+
+(* ---------- executable checks used by the Examples in Props/C06.v ---------- *)
+(* the conclusion of exec_spec evaluated on the fresh scratch *)
+Definition exec_okb (C : circuit) (n : nat) (A : cfg) : bool :=
+  match preprocess (build C n) A (fresh_scratch C) with
+  | Some s1 =>
+    let '(s2, r) := execute_query (build C n) (sort_abs A) s1 in
+    (r =? MCA C n A)
+    && (negb (0 <? r)
+        || forallb (fun i => is_TrueN (nth i C FalseN)
+                             || (nth i (temps s2) 0 =? nth i (countsA (sort_abs A) C) 0))
+                   (seq 0 (length C)))
+    && forallb negb (marks s2) && match mdl s2 with [] => true | _ => false end
+  | None => true
+  end.
+(* all partial assignments over the given features *)
+Fixpoint partials (vs : list Z) : list cfg :=
+  match vs with
+  | [] => [[]]
+  | v :: r => let p := partials r in p ++ map (cons v) p ++ map (cons (- v)) p
+  end.
